@@ -247,6 +247,43 @@ def rng_hazard(hdr):
     return ''
 
 
+def prune_cache(limit_gb=6.0, keep_hours=3.0):
+    """Disk is limited: when .cache exceeds `limit_gb`, remove binaries, transcripts and cached runs that have not
+    been used for `keep_hours` (content-addressed, so anything removed is simply rebuilt when needed again)."""
+    import shutil
+    try:
+        total, entries = 0, []
+        for root, dirs, files in os.walk(CACHE):
+            for f in files:
+                q = os.path.join(root, f)
+                try:
+                    st = os.stat(q)
+                except OSError:
+                    continue
+                total += st.st_size
+                entries.append((st.st_mtime, st.st_size, q))
+        if total < limit_gb * (1 << 30):
+            return
+        cutoff = time.time() - keep_hours * 3600
+        for mt, size, q in sorted(entries):
+            if mt > cutoff or total < limit_gb * (1 << 30) * 0.5:
+                break
+            rel = os.path.relpath(q, CACHE)
+            if rel.endswith('.lock') or rel.startswith('src_'):
+                continue
+            try:
+                os.remove(q)
+                total -= size
+            except OSError:
+                pass
+        for d in os.listdir(CACHE):
+            q = os.path.join(CACHE, d)
+            if os.path.isdir(q) and d.startswith(('tr_', 'search_', 'c17_', 'joincheck_')) and not os.listdir(q):
+                shutil.rmtree(q, ignore_errors=True)
+    except OSError:
+        pass
+
+
 _lean_state = None
 
 
@@ -259,6 +296,7 @@ def lean_state():
     if _lean_state is not None:
         return _lean_state
     with Lock('lean'):
+        prune_cache()
         st = {}
         st['facts_ok'], st['facts_msg'] = regenerate_facts()
         env = dict(os.environ)
@@ -349,6 +387,10 @@ def build_cxx(src_path, flags, tag, extra_hash='', dev=False, src_text=None):
     key = sha(tree_hash(), text, ' '.join(flags), verif_hash('harness'), extra_hash, str(dev))[:24]
     exe = os.path.join(CACHE, 'bin', '%s_%s' % (tag, key))
     if os.path.exists(exe):
+        try:
+            os.utime(exe)           # keep what is in use young (prune_cache removes by age)
+        except OSError:
+            pass
         return exe, '', 0.0, True
     if src_text is not None:
         src_path = exe + '.cpp'
